@@ -76,6 +76,9 @@ type Step struct {
 	C int    `json:"c"`
 	K string `json:"k"`
 	V string `json:"v"` // Send next: payload variant d | de | dx
+	F  string `json:"f"`  // Send (SSE): framing variant, see sseEvent
+	SC bool   `json:"sc"` // Send next: the receiving handler cancels its own subscription from inside the callback
+	SP int    `json:"sp"` // Send next: the receiving handler calls Subscribe for subscriber SP from inside the callback
 }
 
 type Schedule struct {
@@ -88,6 +91,8 @@ type Schedule struct {
 	Key     []int  `json:"key"`
 	Dialler []int  `json:"dialler"` // spec connection -> dialling subscriber (as predicted by the generator)
 	Bad     []bool `json:"bad"`     // subscriber -> its request cannot be encoded (invalid raw variables)
+	Hold    bool   `json:"hold"`    // HoldClose / Release steps may occur
+	Reent   bool   `json:"reent"`   // Send steps may carry sc / sp
 	Ping    bool   `json:"ping"`    // client pings on (every 500 ms) with a pong timeout (150 ms); a "Mute c" step makes the server stop answering
 	Reach   []bool `json:"reach"`   // spec connection -> its dial reaches the server (false: dialled with an already cancelled ctx)
 	Steps   []Step `json:"steps"`
@@ -287,6 +292,8 @@ func isFailedUpgrade(err error) bool {
 }
 
 type subscriber struct {
+	mu      sync.Mutex
+	unsubFn func() // the function Subscribe returned
 	ctx     context.Context
 	cancel  context.CancelFunc
 	called  bool
@@ -296,7 +303,14 @@ type subscriber struct {
 	sconn   int // server connection that arrived during this subscriber's Call step (0 = none)
 }
 
+type reentry struct {
+	sc bool
+	sp int
+}
+
 type runner struct {
+	remu  sync.Mutex
+	reent map[[2]int]reentry // (subscriber, frame number) -> what its handler does on receipt
 	s    Schedule
 	rec  *recorder
 	reg  *netRegistry
@@ -329,6 +343,29 @@ func (r *runner) handler(s int) client.Handler {
 			if m.Payload != nil {
 				b, _ := json.Marshal(m.Payload)
 				e["v"], e["id"], e["n"] = observe(b)
+			}
+			r.remu.Lock()
+			re, ok := r.reent[[2]int{s, e["n"].(int)}]
+			r.remu.Unlock()
+			if ok && e["id"] == s {
+				// re-entrant handler: act from inside the callback, on the connection's read goroutine
+				r.rec.add(e)
+				if re.sc {
+					sub := r.subs[s-1]
+					sub.canceld = true
+					sub.mu.Lock()
+					fn := sub.unsubFn
+					sub.mu.Unlock()
+					if fn != nil {
+						fn()
+						r.rec.add(ev{"ev": "unsub", "s": s})
+					}
+					sub.cancel()
+				}
+				if re.sp > 0 && re.sp <= len(r.subs) && !r.subs[re.sp-1].called {
+					r.subscribeInline(re.sp)
+				}
+				return
 			}
 		case client.MessageTypeError:
 			e["k"] = "error"
@@ -394,6 +431,9 @@ func (r *runner) call(s int) {
 		}()
 		unsub, err := r.cl.Subscribe(sub.ctx, req, opts, h)
 		sub.ret = classify(err)
+		sub.mu.Lock()
+		sub.unsubFn = unsub
+		sub.mu.Unlock()
 		r.rec.add(ev{"ev": "ret", "s": s, "x": sub.ret})
 		if err == nil {
 			// what graphql_subscription_client.go does with the returned function
@@ -406,6 +446,28 @@ func (r *runner) call(s int) {
 	r.settle()
 	if r.sv.count() == before+1 {
 		sub.sconn = before + 1
+	}
+}
+
+// subscribeInline is a Subscribe call made from inside another subscriber's handler (no "call" line: the
+// specification starts the call as part of that dispatch).
+func (r *runner) subscribeInline(s int) {
+	sub := r.subs[s-1]
+	sub.called = true
+	opts := options(r.s, tuples(r.s)[r.s.Key[s-1]-1], r.sv.addr())
+	req := &client.Request{Query: fmt.Sprintf("subscription { s%d }", s)}
+	unsub, err := r.cl.Subscribe(sub.ctx, req, opts, r.handler(s))
+	sub.ret = classify(err)
+	sub.mu.Lock()
+	sub.unsubFn = unsub
+	sub.mu.Unlock()
+	r.rec.add(ev{"ev": "ret", "s": s, "x": sub.ret})
+	close(sub.done)
+	if err == nil {
+		context.AfterFunc(sub.ctx, func() {
+			unsub()
+			r.rec.add(ev{"ev": "unsub", "s": s})
+		})
 	}
 }
 
@@ -511,18 +573,23 @@ func (r *runner) step(st Step) {
 			c.mu.Lock()
 			c.nsent[st.S] = n
 			c.mu.Unlock()
-			if err := c.sseEvent(st.K, variantOf(st), st.S, n); err != nil {
+			if err := c.sseEvent(st.K, variantOf(st), st.F, st.S, n); err != nil {
 				r.res.Unrealised++
 			}
 			r.settle()
 			return
 		}
 		b, ok := c.frame(st.S, st.K, variantOf(st), n)
-		if !ok {
+		if !ok || c.isHeld() {
 			r.res.Unrealised++
 			return
 		}
-		r.rec.add(ev{"ev": "srv.send", "c": c.n, "s": st.S, "k": st.K, "n": n, "v": variantOf(st)})
+		if st.SC || st.SP > 0 {
+			r.remu.Lock()
+			r.reent[[2]int{st.S, n}] = reentry{sc: st.SC, sp: st.SP}
+			r.remu.Unlock()
+		}
+		r.rec.add(ev{"ev": "srv.send", "c": c.n, "s": st.S, "k": st.K, "n": n, "v": variantOf(st), "sc": st.SC, "sp": st.SP})
 		c.mu.Lock()
 		c.nsent[st.S] = n
 		c.mu.Unlock()
@@ -532,7 +599,7 @@ func (r *runner) step(st Step) {
 		r.settle()
 	case "Close":
 		c := r.sconnOf(st.C)
-		if c == nil || c.isGone() {
+		if c == nil || c.isGone() || c.isHeld() {
 			r.res.Unrealised++
 			return
 		}
@@ -553,6 +620,20 @@ func (r *runner) step(st Step) {
 			close(done)
 		} else {
 			r.res.Unrealised++
+		}
+		r.settle()
+	case "HoldClose", "Release":
+		c := r.sconnOf(st.C)
+		if c == nil || c.ws == nil || c.nc == nil || (st.A == "HoldClose" && (c.isGone() || c.isHeld())) || (st.A == "Release" && !c.isHeld()) {
+			r.res.Unrealised++
+			return
+		}
+		if st.A == "HoldClose" {
+			r.rec.add(ev{"ev": "srv.hold", "c": c.n})
+			c.hold()
+		} else {
+			r.rec.add(ev{"ev": "srv.release", "c": c.n})
+			c.release()
 		}
 		r.settle()
 	case "Mute":
@@ -591,6 +672,31 @@ func variantOf(st Step) string {
 		return "d"
 	}
 	return st.V
+}
+
+func (c *sconn) isHeld() bool {
+	c.mu.Lock()
+	defer c.mu.Unlock()
+	return c.held
+}
+
+// hold makes the server keep back everything it writes on this connection - in particular the close frame with
+// which coder/websocket answers the client's close frame - until release.
+func (c *sconn) hold() {
+	g := make(chan struct{})
+	c.mu.Lock()
+	c.held = true
+	c.mu.Unlock()
+	c.nc.hold.Store(&g)
+}
+
+func (c *sconn) release() {
+	c.mu.Lock()
+	c.held = false
+	c.mu.Unlock()
+	if g := c.nc.hold.Swap(nil); g != nil {
+		close(*g)
+	}
 }
 
 func (c *sconn) isGone() bool {
@@ -651,7 +757,7 @@ func runSchedule(s Schedule, w *bufio.Writer) Result {
 		ccfg.PingInterval, ccfg.PingTimeout = pingInterval, pingTimeout
 	}
 	cl := client.New(cctx, ccfg)
-	r := &runner{s: s, rec: rec, reg: reg, sv: sv, cl: cl, res: &res, idle: idle}
+	r := &runner{s: s, rec: rec, reg: reg, sv: sv, cl: cl, res: &res, idle: idle, reent: map[[2]int]reentry{}}
 	if s.Level == "ds" {
 		r.ds = newDSClient(cctx, &http.Client{Transport: tr}, ccfg.PingInterval, ccfg.PingTimeout)
 		r.idle, idle = 0, 0
@@ -667,7 +773,7 @@ func runSchedule(s Schedule, w *bufio.Writer) Result {
 	}
 	bad := make([]bool, len(s.Key))
 	copy(bad, s.Bad)
-	rec.add(ev{"ev": "reset", "id": s.ID, "key": s.Key, "idle": idleName, "mode": s.Mode, "bad": bad, "ping": s.Ping})
+	rec.add(ev{"ev": "reset", "id": s.ID, "key": s.Key, "idle": idleName, "mode": s.Mode, "bad": bad, "ping": s.Ping, "hold": s.Hold, "reent": s.Reent})
 	for _, st := range s.Steps {
 		r.step(st)
 	}
@@ -682,6 +788,13 @@ func runSchedule(s Schedule, w *bufio.Writer) Result {
 			default:
 			}
 			r.cancelSub(i + 1)
+		}
+	}
+	for n := 1; n <= sv.count(); n++ {
+		if c := sv.conn(n); c != nil && c.isHeld() {
+			rec.add(ev{"ev": "srv.release", "c": c.n})
+			c.release()
+			r.settle()
 		}
 	}
 	if idle > 0 {
@@ -727,6 +840,12 @@ func runSchedule(s Schedule, w *bufio.Writer) Result {
 		}
 		if _, ok := e["v"]; !ok {
 			e["v"] = "-"
+		}
+		if _, ok := e["sc"]; !ok {
+			e["sc"] = false
+		}
+		if _, ok := e["sp"]; !ok {
+			e["sp"] = 0
 		}
 		for _, k := range []string{"k", "x"} {
 			if _, ok := e[k]; !ok {
